@@ -82,7 +82,7 @@ structure MGGood (IM : M → Prop) (mg : MG M) : Prop where
   te : ∀ e, mg.te = some e → IM e.m
   pv : ∀ m ∈ mg.pv, IM m
 
-theorem respLookup_good [DecidableEq M] (ply : Nat) {s : Eng M} (hs : EngGood IM s) :
+theorem respLookup_engGood [DecidableEq M] (ply : Nat) {s : Eng M} (hs : EngGood IM s) :
     Sat (respLookup ply s) (fun r? => ∀ r, r? = some r → IM r) := by
   unfold respLookup
   split
@@ -140,7 +140,7 @@ theorem iterate_sim [DecidableEq M] (hR : Restr g S IM) {k : Nat} (hb : BodySim 
         (CtlGood IM A R) := by
     intro a s ha hs
     unfold stage23
-    have hl := respLookup_good mg.ply hs
+    have hl := respLookup_engGood mg.ply hs
     cases hr : respLookup mg.ply s with
     | error e => exact Sim.error
     | ok r? =>
@@ -162,7 +162,7 @@ theorem ttProbe_sim (hR : Restr g S IM) (p' : {p // S 0 p}) {k : Nat} (hp : S (k
   unfold ttProbe
   have e : (g.restrict (S 0) IM).hash p' = g.hash p'.val := rfl
   rw [e]
-  refine Sim.bind (Sim.refl (ttGet_good hs (g.hash p'.val))) ?_
+  refine Sim.bind (Sim.refl (ttGet_engGood hs (g.hash p'.val))) ?_
   intro te hte
   cases te with
   | none => exact Sim.pure ⟨hs, fun e h => by cases h⟩
@@ -176,7 +176,7 @@ theorem ttProbe_sim (hR : Restr g S IM) (p' : {p // S 0 p}) {k : Nat} (hp : S (k
         have h0 : S 0 c := hR.anti_le (Nat.zero_le k) hk
         rw [restrict_apply_ok hem hap h0]
         dsimp only
-        refine Sim.bind (Sim.refl (setA_good hs.pv0 ply e.m hem _)) ?_
+        refine Sim.bind (Sim.refl (setA_engGood hs.pv0 ply e.m hem _)) ?_
         intro pv0 hpv0
         refine Sim.pure ⟨⟨hs.table, hs.resp, hpv0⟩, ?_⟩
         intro l hl
